@@ -94,4 +94,192 @@ theorem get_const_period_eq (e : DExt κ α) (h3 : 3 ≤ e.shape.length) (h5 : e
        | _ :: _ :: _ :: _ :: _ :: _ :: _, _, h5 => simp at h5)
 
 
+/-! ### `_simplify` -/
+
+/-- the base names present in `_content` -/
+def contentOf (e : DExt κ α) : List String :=
+  ["global"] ++ (if e.hasTime then ["time"] else []) ++ (if e.hasVector then ["vector"] else [])
+
+theorem content_contains (e : DExt κ α) (sdArg : Option Nat) (d : Cls) :
+    (contentOf e).contains d.base = basePresent (e.shp sdArg) d := by
+  obtain ⟨shape, sd, ht, hvv, ents⟩ := e
+  cases d <;> cases ht <;> cases hvv <;> simp [contentOf, Cls.base, basePresent, DExt.shp] <;> decide
+
+/-- what the model's outcome of `_simplify` means for the dictionaries: nothing, the constant deleted, or the values written
+    under the new class and the key deleted from the old one -/
+def fxOf (c : Cls) : SimpOut α → Bool × KeyFx α
+  | .unchanged => (false, {})
+  | .deleted => (true, { deleted := [c] })
+  | .moved d v => (true, { written := [(d, v)], deleted := [c] })
+
+theorem pyStepAux_stride (p : Nat) : ∀ (l : List α) (k : Nat), pyStepAux p k l = strideAux p k l
+  | [], k => by simp [pyStepAux, strideAux]
+  | a :: l, 0 => by simp [pyStepAux, strideAux, pyStepAux_stride p l]
+  | a :: l, k + 1 => by simp [pyStepAux, strideAux, pyStepAux_stride p l]
+
+theorem pyStep_stride (l : List α) (p : Nat) : pyStep l 0 p = stride p l := by
+  simp [pyStep, stride, pyStepAux_stride]
+
+theorem nat_beq_comm (a b : Nat) : (a == b) = (b == a) := by
+  cases h : a == b <;> cases h' : b == a <;> simp_all
+
+section simplify_loops
+variable [DecidableEq α]
+
+/-- the body of the first loop of `_simplify` (constant with some period?) -/
+def constBody (e : DExt κ α) (c : Cls) (vals : List α) (dest : Cls) (s : KeyFx α × Bool) :
+    Except PyErr (ForInStep (KeyFx α × Bool)) :=
+  if basePresent e.shp dest = true then do
+    let p ← Py.get_const_period e.shape (e.sliceDim.map fun d => e.shape.getD d 1) c dest
+    let hit ← (if (p == some 1) = true then pure true else Py.is_constant vals p)
+    if hit = true then
+      match p with
+      | none => pure (ForInStep.done (s.fst.write dest vals.head?.toList, true))
+      | some period => pure (ForInStep.done (s.fst.write dest (pyStep vals 0 period), true))
+    else pure (ForInStep.yield (s.fst, s.snd))
+  else pure (ForInStep.yield (s.fst, s.snd))
+
+theorem constLoop_forIn (e : DExt κ α) (h3 : 3 ≤ e.shape.length) (h5 : e.shape.length ≤ 5)
+    (hsl : e.sliceDim.isSome = true) (hbase : ∀ d, basePresent e.shp d = true → d ∈ validClasses e.shp)
+    (c : Cls) (hc : c ∈ validClasses e.shp) (vals : List α)
+    (f : Cls → KeyFx α × Bool → Except PyErr (ForInStep (KeyFx α × Bool))) (fx0 : KeyFx α) :
+    ∀ (l : List Cls), (∀ d ∈ l, d ∈ constTests c) → (∀ x ∈ l, ∀ s, f x s = constBody e c vals x s) →
+    forIn l (fx0, false) f =
+      match constLoop e.shp c vals l with
+      | .error _ => .error PyErr.valueError
+      | .ok (some (d, v)) => .ok (fx0.write d v, true)
+      | .ok none => .ok (fx0, false)
+  | [], _, _ => by simp [constLoop]; rfl
+  | x :: xs, htab, hf => by
+    have ih := constLoop_forIn e h3 h5 hsl hbase c hc vals f fx0 xs (fun d hd => htab d (by simp [hd]))
+      (fun y hy s => hf y (by simp [hy]) s)
+    rw [List.forIn_cons, hf x (by simp)]
+    unfold constBody constLoop
+    by_cases hb : basePresent e.shp x = true
+    · have hx := hbase x hb
+      rw [get_const_period_eq e h3 h5 hsl c x hc hx (htab x (by simp))]
+      simp only [hb, if_true, ok_bind']
+      by_cases h1 : constPeriod e.shp c x = some 1
+      · simp [h1, pyStep_stride]
+        rfl
+      · have h1' : (constPeriod e.shp c x == some 1) = false := by simpa using h1
+        simp only [h1', Bool.false_eq_true, if_false, h1, is_constant_eq]
+        cases hk : pyIsConstant vals (constPeriod e.shp c x) with
+        | error er => simp [errOf, bind, Except.bind]
+        | ok b =>
+          cases b
+          · simp only [errOf, ok_bind', Bool.false_eq_true, if_false, pure_bind]
+            exact ih
+          · simp only [errOf, ok_bind', if_true]
+            cases hp : constPeriod e.shp c x <;> simp [pyStep_stride] <;> rfl
+    · have hb' : basePresent e.shp x = false := by simpa using hb
+      simp only [hb', Bool.false_eq_true, if_false, pure_bind]
+      exact ih
+
+/-- the body of the second loop of `_simplify` (repeating with the multiplicity of a smaller class?) -/
+def repeatBody (e : DExt κ α) (vals : List α) (dest : Cls) (s : KeyFx α × Bool) :
+    Except PyErr (ForInStep (KeyFx α × Bool)) :=
+  if basePresent e.shp dest = true then do
+    let dm ← Py.get_multiplicity e.shape (e.sliceDim.map fun d => e.shape.getD d 1) dest
+    let hit ← (if (dm == vals.length) = true then pure true else Py.is_repeating vals dm)
+    if hit = true then pure (ForInStep.done (s.fst.write dest (List.take dm vals), true))
+    else pure (ForInStep.yield (s.fst, s.snd))
+  else pure (ForInStep.yield (s.fst, s.snd))
+
+theorem repeatLoop_forIn (e : DExt κ α) (h3 : 3 ≤ e.shape.length) (h5 : e.shape.length ≤ 5)
+    (hbase : ∀ d, basePresent e.shp d = true → d ∈ validClasses e.shp) (vals : List α)
+    (f : Cls → KeyFx α × Bool → Except PyErr (ForInStep (KeyFx α × Bool))) (fx0 : KeyFx α) :
+    ∀ (l : List Cls), (∀ x ∈ l, ∀ s, f x s = repeatBody e vals x s) →
+    forIn l (fx0, false) f =
+      match repeatLoop e.shp vals l with
+      | .error _ => .error PyErr.valueError
+      | .ok (some (d, v)) => .ok (fx0.write d v, true)
+      | .ok none => .ok (fx0, false)
+  | [], _ => by simp [repeatLoop]; rfl
+  | x :: xs, hf => by
+    have ih := repeatLoop_forIn e h3 h5 hbase vals f fx0 xs (fun y hy s => hf y (by simp [hy]) s)
+    rw [List.forIn_cons, hf x (by simp)]
+    unfold repeatBody repeatLoop
+    by_cases hb : basePresent e.shp x = true
+    · have hx := hbase x hb
+      rw [get_multiplicity_eq e h3 h5 x hx]
+      simp only [hb, if_true, ok_bind', repeatHit]
+      by_cases h1 : mult e.shp x = vals.length
+      · simp [h1]
+        rfl
+      · have h1' : (mult e.shp x == vals.length) = false := by simpa using h1
+        simp only [h1', Bool.false_eq_true, if_false, h1, is_repeating_eq]
+        cases hk : pyIsRepeating vals (mult e.shp x) with
+        | error er => simp [errOf, bind, Except.bind]
+        | ok b =>
+          cases b
+          · simp only [errOf, ok_bind', Bool.false_eq_true, if_false, pure_bind]
+            exact ih
+          · simp only [errOf, ok_bind', if_true]
+            rfl
+    · have hb' : basePresent e.shp x = false := by simpa using hb
+      simp only [hb', Bool.false_eq_true, if_false, pure_bind]
+      exact ih
+
+end simplify_loops
+
+/-- **`_simplify` as written in dcmmeta.py is the model's `simplifyK`** for one key of an extension with three to five axes and a
+    slice dimension whose base dictionaries are the ones valid for its shape: the same Boolean, the same single write (class and
+    values) followed by the deletion from the old class — or only the deletion of a constant `None` — and `ValueError` exactly when
+    the model's list tests reject their arguments -/
+theorem simplify_eq [DecidableEq α] (null : α) (e : DExt κ α) (h3 : 3 ≤ e.shape.length) (h5 : e.shape.length ≤ 5)
+    (hsl : e.sliceDim.isSome = true) (hbase : ∀ d, basePresent e.shp d = true → d ∈ validClasses e.shp)
+    (c : Cls) (hc : c ∈ validClasses e.shp) (vals : List α) :
+    Py.simplify null e.shape (e.sliceDim.map fun d => e.shape.getD d 1) (contentOf e) vals c =
+      errOf ((simplifyK null e.shp c vals).map (fxOf c)) := by
+  have hcc := content_contains e none
+  by_cases hg : c = gconst
+  · subst hg
+    by_cases hv : vals = [null] <;> simp [Py.simplify, simplifyK, hv, errOf, fxOf, Except.map, KeyFx.del] <;> rfl
+  · have hne : (c == gconst) = false := by simpa using hg
+    have hkeys : Gen.repeatTestsKeys.contains c = false → repeatTests c = [] := by
+      cases c <;> simp [Gen.repeatTestsKeys, repeatTests]
+    simp only [Py.simplify, simplifyK, hne, hg, hcc, Bool.false_eq_true, if_false]
+    rw [constLoop_forIn e h3 h5 hsl hbase c hc vals _ _ (constTests c) (fun d hd => hd) ?hf1]
+    case hf1 =>
+      intro x hx s
+      first | rfl | (simp only [constBody, Bool.or_comm] <;> rfl)
+    cases h1 : constLoop e.shp c vals (constTests c) with
+    | error er => simp [errOf, Except.map, bind, Except.bind]
+    | ok r =>
+      cases r with
+      | some dv =>
+        obtain ⟨d, v⟩ := dv
+        simp [errOf, Except.map, fxOf, KeyFx.write, KeyFx.del, bind, Except.bind, pure, Except.pure]
+      | none =>
+        simp only [ok_bind', Bool.not_false, if_true]
+        by_cases hk : Gen.repeatTestsKeys.contains c = true
+        · simp only [hk, if_true]
+          rw [repeatLoop_forIn e h3 h5 hbase vals _ _ (repeatTests c) ?hf2]
+          case hf2 =>
+            intro x hx s
+            first | rfl | (simp only [repeatBody, nat_beq_comm vals.length] <;> rfl)
+          cases h2 : repeatLoop e.shp vals (repeatTests c) with
+          | error er => simp [errOf, Except.map, bind, Except.bind]
+          | ok r2 =>
+            cases r2 with
+            | some dv =>
+              obtain ⟨d, v⟩ := dv
+              simp [errOf, Except.map, fxOf, KeyFx.write, KeyFx.del, bind, Except.bind, pure, Except.pure]
+            | none => simp [errOf, Except.map, fxOf, bind, Except.bind, pure, Except.pure]
+        · have hk' : Gen.repeatTestsKeys.contains c = false := by simpa using hk
+          simp [hk', hkeys hk', repeatLoop, errOf, Except.map, fxOf, pure, Except.pure]
+          intro _; rfl
+
+/-! the translated `_simplify` computes (tests, not theorems): constant values, values repeating per volume, nothing to do,
+    a constant `None` -/
+example : Py.simplify (0 : Nat) [2, 2, 2, 2] (some 2) ["global", "time"] [5, 5, 5, 5] gslices =
+    .ok (true, { written := [(gconst, [5])], deleted := [gslices] }) := by rfl
+example : Py.simplify (0 : Nat) [2, 2, 2, 2] (some 2) ["global", "time"] [5, 6, 5, 6] gslices =
+    .ok (true, { written := [(tslices, [5, 6])], deleted := [gslices] }) := by rfl
+example : Py.simplify (0 : Nat) [2, 2, 2, 2] (some 2) ["global", "time"] [5, 5, 6, 6] gslices =
+    .ok (true, { written := [(tsamples, [5, 6])], deleted := [gslices] }) := by rfl
+example : Py.simplify (0 : Nat) [2, 2, 2, 2] (some 2) ["global", "time"] [5, 6, 7, 8] gslices = .ok (false, { }) := by rfl
+example : Py.simplify (0 : Nat) [2, 2, 2, 2] (some 2) ["global", "time"] [0] gconst = .ok (true, { deleted := [gconst] }) := by rfl
+
 end Src
